@@ -37,7 +37,7 @@ func main() {
 	}
 	if *fast {
 		// the claim-payment retry loop gets an unbounded time budget; the simulated chain ends it after 12 attempts (chain.go)
-		swap.VerifSetTiming(true, time.Hour, 100*time.Microsecond, *retx)
+		swap.VerifSetTiming(true, 300*time.Millisecond, 100*time.Microsecond, *retx)
 	}
 	f, err := os.Open(*in)
 	if err != nil {
